@@ -77,6 +77,29 @@ pub struct ChainParams {
     pub base_ts: u64,
     /// put the always-success cell into genesis (C18)
     pub always_success: bool,
+    /// also deploy the real secp256k1_blake160_sighash_all lock (code cell + data cell, genesis cellbase outputs 4 and 5)
+    /// and lock half of the generated outputs with it (C18: script verification that depends on the witness)
+    pub secp: bool,
+}
+
+/// the bundled system script binaries (ckb-system-scripts through ckb-resource): (sighash_all code, secp256k1 data)
+pub fn secp_bins() -> &'static (Bytes, Bytes) {
+    static CELLS: std::sync::OnceLock<(Bytes, Bytes)> = std::sync::OnceLock::new();
+    CELLS.get_or_init(|| {
+        let get = |name: &str| Bytes::from(ckb_resource::Resource::bundled(format!("specs/cells/{}", name)).get().expect("bundled system cell").into_owned());
+        (get("secp256k1_blake160_sighash_all"), get("secp256k1_data"))
+    })
+}
+
+pub fn secp_privkey(which: u8) -> ckb_crypto::secp::Privkey {
+    ckb_crypto::secp::Privkey::from_slice(&[which.wrapping_add(7); 32])
+}
+
+/// the sighash_all lock (referenced by data hash) of key `which`
+pub fn secp_lock(which: u8) -> Script {
+    let pk = secp_privkey(which).pubkey().expect("pubkey").serialize();
+    let args = Bytes::from(ckb_hash::blake2b_256(&pk)[0..20].to_vec());
+    Script::new_builder().hash_type(ScriptHashType::Data.into()).code_hash(CellOutput::calc_data_hash(&secp_bins().0)).args(args.pack()).build()
 }
 
 impl ChainParams {
@@ -92,6 +115,7 @@ impl ChainParams {
             n_types: 2,
             base_ts,
             always_success: false,
+            secp: false,
         }
     }
 }
@@ -397,7 +421,13 @@ impl Chain {
             100_0000_0000u64 + counter * 1000 + rng.below(1000)
         };
         let mk_output = |rng: &mut Rng, cap: u64| -> (CellOutput, Bytes) {
-            let lock = if p.always_success { super::props::c18::always_success_cell().2 } else { lock_script(rng.pick_idx(p.n_locks.max(1))) };
+            let lock = if p.always_success && p.secp && rng.chance(1, 2) {
+                secp_lock(0)
+            } else if p.always_success {
+                super::props::c18::always_success_cell().2
+            } else {
+                lock_script(rng.pick_idx(p.n_locks.max(1)))
+            };
             let mut b = CellOutputBuilder::default().capacity(Capacity::shannons(cap).pack()).lock(lock);
             if p.n_types > 0 && rng.chance(1, 3) {
                 b = b.type_(Some(type_script(rng.pick_idx(p.n_types))).pack());
@@ -424,6 +454,12 @@ impl Chain {
             if n == 0 && p.always_success {
                 let (cell, data, _script) = super::props::c18::always_success_cell();
                 tb = tb.output(cell).output_data(data.pack());
+                if p.secp {
+                    for bin in [&secp_bins().0, &secp_bins().1] {
+                        let cell = CellOutput::new_builder().capacity(Capacity::bytes(bin.len() + 200).unwrap().pack()).build();
+                        tb = tb.output(cell).output_data(bin.clone().pack());
+                    }
+                }
             }
             txs.push(tb.build());
         }
